@@ -329,6 +329,7 @@ SPLIT_QUERIES = [
     'count(*), max(size) from /r1 where is_dir = false',
     'name from . where name like %.txt or (size > 1 and size < 9)',
     'concat(name, ext) from /r1, /r2',
+    'name from /donn\u00e9es, /logs\u65e5 where name ne \u00e9t\u00e9',
 ]
 
 
@@ -406,6 +407,16 @@ PARSE_PAIRS = [
     (['name', 'from', '.', 'where', 'size', 'op:gte', '1'], ['name', 'from', '.', 'where', 'size', 'op:>=', '1']),
     (['name', 'from', '.', 'where', 'name', 'not', 'like', 'x'], ['name', 'from', '.', 'where', 'name', 'op:notlike', 'x']),
     (['Name', 'FROM' if False else 'from', '.', 'where', 'SIZE', '>', '1'], ['name', 'from', '.', 'where', 'size', '>', '1']),
+    # root options of a query without FROM (the default root): every alias is recognised as an option, not as a column
+    (['name', 'depth', '1'], ['name', 'maxdepth', '1']),
+    (['name', 'from', '.', 'depth', '1'], ['name', 'depth', '1']),
+    (['name', 'from', '.', 'mindepth', '2'], ['name', 'mindepth', '2']),
+    (['name', 'sym'], ['name', 'symlinks']),
+    (['name', 'arc'], ['name', 'archives']),
+    (['name', 'from', '.', 'dfs'], ['name', 'dfs']),
+    (['name', 'from', '.', 'bfs'], ['name', 'bfs']),
+    (['name', 'from', '.', 'nogit', 'nohg', 'nodock'], ['name', 'nogitignore', 'nohgignore', 'nodockerignore']),
+    (['name', 'from', '.', 'git', 'hg', 'dock'], ['name', 'gitignore', 'hgignore', 'dockerignore']),
 ]
 
 
